@@ -10,10 +10,18 @@ VERUS = {
     # karatsuba::add_signed_mul_same_len: three half-size products through the dispatcher's contract, the
     # |a0-a1|*|b0-b1| sign trick, seven in-place accumulations with carries at 2m / 3m / 2n: same post as the schoolbook kernel
     'int_mul_karatsuba': {'file': 'int_mul_karatsuba.rs', 'w32': True},
+    # toom_3::add_signed_mul_same_len: evaluation of A(x)B(x) at 0, 1, -1, 2, inf (five third-size products through the
+    # dispatcher's contract), interpolation with the EXACT divisions by 6 and 2 proved (remainders are proof obligations),
+    # thirteen in-place accumulations with carries at 2k, 3k+2, 4k+2, 5k+2, 2n: same post as the schoolbook kernel.
+    # One long SMT query (about 25 s, rlimit attribute in the annotated copy; its `ensures false` canary needs ~4 min).
+    'int_mul_toom3': {'file': 'int_mul_toom3.rs', 'w32': True},
+    # sqr::sqr (dispatch: simple squaring <= 30 words, else the multiplication dispatcher) and sqr::simple::square
+    # (diagonal trick: off-diagonal products once, then b = 2b + sum a_i^2 B^(2i) fused): val(b') == val(a)^2
+    'int_sqr': {'file': 'int_sqr.rs', 'w32': True},
 }
 
 PROP_UNITS = {
-    'C01': {'verus': ['int_mul_dispatch', 'int_mul_karatsuba'],
+    'C01': {'verus': ['int_mul_dispatch', 'int_mul_karatsuba', 'int_mul_toom3', 'int_sqr'],
             'undecided': ['Memory scratch allocator: allocate_slice_* contracts assumed (lib/mulalg_stubs.rs); sizing of the '
                           'scratch area (memory_requirement_*) not verified (too small => panic, never a wrong value)']},
 }
